@@ -7,3 +7,10 @@ mod types;
 
 pub use state::H263State;
 pub use types::DecoderOption;
+
+/// Verification hooks: re-exports of the CPU primitives (compiled only with `--cfg h263_rs_verif`).
+#[cfg(h263_rs_verif)]
+pub mod verif_cpu {
+    pub use super::cpu::{gather, idct_channel, inverse_rle, mv_decode, predict_candidate};
+    pub use super::picture::DecodedPicture;
+}
